@@ -159,8 +159,9 @@ theorem replaceField_names (g : String) (v : Value) : ∀ (r : Row), Row.names (
     simp only [replaceField]
     split
     · rfl
-    · simp only [Row.names, List.map_cons] at *
-      rw [replaceField_names g v r]
+    · have ih := replaceField_names g v r
+      simp only [Row.names, List.map_cons] at ih ⊢
+      rw [ih]
 
 theorem unnestRows_erase {f g : String} (hgf : g ≠ f) : ∀ (rows : List Row),
     unnestRows g (rows.map (eraseKey f)) = (unnestRows g rows).map (List.map (eraseKey f))
